@@ -1,53 +1,61 @@
 #!/bin/bash
-# usage: verify_mutant.sh <prop> <n> <pkgdir (. for root)> <run-regex>
-# Confirms a seeded change in its scratch worktree /tmp/wt-<prop>: suite passes with
-# it, demo fails with it, demo passes without it. Then runs the property's check
-# against /repo with the change applied, and stores everything under /verif/seeded.
+# usage: verify_mutant.sh <prop> <n> <pkgdir (. for root)> <run-regex> [tier]
+# env: WTPREFIX (where the sub-agent's worktree with MUTANT_<n>/ lives, default /tmp/wt-),
+#      SEEDTAG (prefix of the seeded/ directory index), MUTANT_ON_REPO=1 (apply the
+#      patch to /repo itself for the check run and undo it straight afterwards).
+# Confirms a seeded change against the CURRENT /repo HEAD where its patch still
+# applies (in a throw-away worktree of HEAD; otherwise on the base it was written
+# for): suite passes with it, demo fails with it, demo passes without it. Then runs
+# the property's check on the changed tree and stores everything under /verif/seeded.
 export GOFLAGS=-mod=mod GOPROXY=off GOSUMDB=off GOTOOLCHAIN=local
 prop=$1; n=$2; dir=$3; re=$4; tier=${5:-quick}
-wt=${WTPREFIX:-/tmp/wt-}$prop; m=$wt/MUTANT_$n; out=/verif/seeded/$prop-${SEEDTAG:-}$n
+src=${WTPREFIX:-/tmp/wt-}$prop; m=$src/MUTANT_$n; out=/verif/seeded/$prop-${SEEDTAG:-}$n
 mkdir -p $out
+head=$(git -C /repo rev-parse --short HEAD)
+wt=/tmp/mutant-head-$prop-$n-$$
+git -C /repo worktree add -q --detach $wt HEAD || exit 2
+base=$head; onhead=yes
+if ! git -C $wt apply --check $m/patch.diff 2>/dev/null; then
+  # the patch was written against an older base and conflicts with later fix commits
+  git -C /repo worktree remove --force $wt
+  wt=$src; onhead=no; base=$(git -C $src rev-parse --short HEAD)
+  git -C $wt checkout -q -- .
+fi
 cd $wt || exit 2
-git checkout -q -- . ; git apply --check $m/patch.diff || { echo "patch does not apply"; exit 2; }
 demo=$dir/zz_seeded_demo_test.go
 cp $m/demo_test.go.txt $demo
 r_without=$(go test -vet=off -count=1 -run "$re" ./$dir 2>&1 | tail -3 | tr '\n' ' ')
 git apply $m/patch.diff
-build=$(go build ./... 2>&1 | tail -3)
+go build ./... 2>&1 | tail -3
 r_with=$(go test -vet=off -count=1 -run "$re" ./$dir 2>&1 | tail -5 | tr '\n' ' ')
 rm -f $demo
 suite=$(go test -vet=off -count=1 ./... 2>&1 | grep -v "no test files" | tr '\n' ' ')
-git checkout -q -- .
 echo "demo without: $r_without"; echo "demo with: $r_with"; echo "suite with: $suite"
-# run the check against the tree with the change applied. By default this is the
-# mutant's own scratch worktree (same commit as /repo) so that several mutants can be
-# examined while other work goes on; with MUTANT_ON_REPO=1 the patch is applied to
-# /repo itself (git -C /repo apply) and undone straight afterwards.
 t0=$(date +%s)
-where=worktree
-if [ -n "$MUTANT_ON_REPO" ] && git -C /repo apply --check $m/patch.diff 2>/dev/null; then
-  where=repo
-fi
-if [ "$where" = repo ]; then
-  cd /repo && git apply $m/patch.diff || { echo "cannot apply to /repo"; exit 2; }
+where="scratch worktree of /repo at $base with the patch applied"
+if [ -n "$MUTANT_ON_REPO" ] && [ $onhead = yes ]; then
+  git -C /repo apply $m/patch.diff || exit 2
+  where="/repo at $head (git -C /repo apply; undone straight afterwards)"
   chk=$(cd /verif && GOSYM_OUT=/tmp/mutant-evidence-$prop-$n.json timeout 1800 bash check.sh $prop $tier 2>&1 | grep -v "^gosym: [0-9]*s" | tail -12)
   git -C /repo checkout -- .
 else
-  cd $wt && git apply $m/patch.diff
   chk=$(cd /verif && GOSYM_REPO=$wt GOSYM_OUT=/tmp/mutant-evidence-$prop-$n.json timeout 1800 bash check.sh $prop $tier 2>&1 | grep -v "^gosym: [0-9]*s" | tail -12)
-  git -C $wt checkout -q -- .
 fi
 t1=$(date +%s)
 rm -f /tmp/mutant-evidence-$prop-$n.json
+git -C $wt checkout -q -- . 2>/dev/null
+if [ $onhead = yes ]; then git -C /repo worktree remove --force $wt; fi
 echo "$chk"
 cp $m/patch.diff $out/patch.diff; cp $m/demo_test.go.txt $out/demo_test.go.txt; cp $m/README.md $out/README.md 2>/dev/null
-python3 - "$prop" "$n" "$dir" "$re" "$r_without" "$r_with" "$suite" "$chk" "$((t1-t0))" "$tier" "$where" "$(git -C $wt rev-parse --short HEAD)" "$(git -C /repo rev-parse --short HEAD)" > $out/meta.json <<'PY'
+python3 - "$prop" "$n" "$dir" "$re" "$r_without" "$r_with" "$suite" "$chk" "$((t1-t0))" "$tier" "$where" "$onhead" "$head" > $out/meta.json <<'PY'
 import json,sys
-prop,n,d,re,rw,rwi,suite,chk,secs,tier,where,base,head=sys.argv[1:14]
+prop,n,d,re,rw,rwi,suite,chk,secs,tier,where,onhead,head=sys.argv[1:14]
 detected = "VIOLATION property="+prop in chk
+breaks = ('FAIL' in rwi) and rw.strip().startswith('ok') and ('FAIL' not in suite)
 print(json.dumps({"property":prop,"mutant":int(n),"demo_dir":d,"demo_run":re,
- "check_ran_on": ("/repo (git -C /repo apply; undone afterwards) at "+head) if where=="repo" else ("scratch worktree of /repo at "+base+" with the patch applied (the patch does not apply to /repo HEAD "+head+", or worktree mode was requested)"),
+ "confirmed_against": ("current /repo HEAD "+head) if onhead=="yes" else "the base the patch was written for (it conflicts with later fix commits in /repo)",
  "confirmed":{"demo_without_change":rw.strip(),"demo_with_change":rwi.strip(),"suite_with_change":suite.strip()},
- "check_tier":tier,"check_seconds":int(secs),"detected_by_check":detected,"check_output_tail":chk.splitlines()[-8:]},indent=1))
+ "breaks_property_on_that_tree": breaks,
+ "check_ran_on":where,"check_tier":tier,"check_seconds":int(secs),"detected_by_check":detected,"check_output_tail":chk.splitlines()[-8:]},indent=1))
 PY
-grep -o '"detected_by_check": [a-z]*' $out/meta.json
+grep -o '"detected_by_check": [a-z]*\|"breaks_property_on_that_tree": [a-z]*' $out/meta.json | tr '\n' ' '; echo
